@@ -191,19 +191,31 @@ def register(props):
                 "structured argument",
         "assumptions": ["no two keys of one map read the same after conversion (D19: known-finding class, refuted in the model)",
                         "argument preservation is observed on the implementation (Gallina values are immutable): partial"],
-        "level_text": "Theorems (all fuels, environments, schemas, values): (1) C12_order_independent_verdict_partial - the accept/reject "
-                      "decision of Unserialize, Validate, Serialize and data-mode ValidateCompatibility is the same on (e, s, v) and "
-                      "(e', s', v') whenever these differ only in the order of association lists: of the environment's tables and of "
-                      "the schema (properties, one-of members, scope/namespace tables, enum values) "
-                      "[C12_schema_order_all_operations, C12_unserialize_schema_order] and of the entries of every map of the argument, "
-                      "at any depth [C12_value_order_all_operations], for well-formed descriptions and under no_key_collision; "
-                      "underneath: C12_order_independent_partial, C12_schema_lookups_order_free; (2) that the two RESULTS are equal "
-                      "up to the order of map entries is NOT proved (partial; observed by the family); (3) with two keys that read "
-                      "the same the result does depend on the order [C12_collision_refuted, D19]; (4) with the decoded-default cache "
-                      "made explicit state, every result after any history equals the result on a fresh instance and the cache is a "
-                      "function of the schema alone [C12_oracles_pointwise, C12_history_free_partial, "
-                      "C12_state_is_function_of_schema]; the unit-parsing caches are not modelled as state (partial).",
-        "level_note": "Model = Schema/Ops.v; Schema/Perm.v (perm_val, perm_schema, has_key_collision). Tied to the code by the c12pure "
-                      "family (outcome class + the purity flags); struct-mapped objects by the direct check only.",
+        "level_text": "Theorems (all fuels, environments, schemas, values): (1) C12_order_independent - verdict AND results, both "
+                      "sides at once: on (e, s, v) and (e', s', v') that differ only in the order of association lists - of the "
+                      "environment's tables, of the schema (properties, one-of members, scope/namespace tables, enum values) and of the "
+                      "entries of every map of the argument, at any depth - Unserialize, Validate, Serialize and data-mode "
+                      "ValidateCompatibility take the same accept/reject decision [C12_order_independent_verdict_partial, from "
+                      "C12_schema_order_all_operations, C12_unserialize_schema_order, C12_value_order_all_operations; well-formed "
+                      "descriptions, no_key_collision], and the RESULTS of Unserialize and of Serialize are equal up to the order of map "
+                      "entries (perm_val) [C12_unserialize_results_order_free, C12_serialize_results_order_free; well-formedness on "
+                      "the first description only] under keys_distinct Ub v (at every map of the argument no two keys can be read as "
+                      "the same key by the int mapper under units accepted by Ub, the string mapper, reflect's int64/string "
+                      "conversions or the any conversion), map_key_units Ub e s (the int-keyed maps of the schema read their keys "
+                      "under units accepted by Ub) and defaults_distinct Ub (the same for decoded property defaults); (2) the result "
+                      "half is FALSE under the boolean class predicate no_key_collision alone [C12_result_refuted: string keys "
+                      "\"1\" and \"01\" under an int-keyed map; reproduced on the Go code], and with two keys the predicate does see "
+                      "[C12_collision_refuted, D19]; underneath: C12_order_independent_partial, C12_schema_lookups_order_free; "
+                      "(3) with the decoded-default cache made explicit state, every result after any history equals the result on a "
+                      "fresh instance and the cache is a function of the schema alone [C12_oracles_pointwise, "
+                      "C12_history_free_partial, C12_state_is_function_of_schema]. Well-formedness is assumed on the first "
+                      "description only: perm_env/perm_schema preserve wf_schema [C12_wf_order_free, C12_order_independent_verdict]. "
+                      "Remaining partial: the unit-parsing caches are not modelled as state; argument preservation is observed on the "
+                      "implementation, not proved.",
+        "level_note": "Model = Schema/Ops.v; Schema/Perm.v (perm_val, perm_schema, has_key_collision); Proofs/C12ResultBase.v "
+                      "(keys_distinct = kfree, kc). Tied to the code by the c12pure family (outcome class + the purity flags); "
+                      "struct-mapped objects by the direct check only. The class predicate of D19 (has_key_collision, key TEXTS) "
+                      "under-approximates the defect class: keys whose texts differ but that convert to one key (\"1\"/\"01\", "
+                      "\"1\"/\"+1\" under int keys) are outside it (C12_result_refuted).",
         "design_ref": "DESIGN.md §5 C12",
     }
